@@ -200,7 +200,7 @@ def installation(ctx):
     for mode in ("init", "sub", "other"):
         old_sub, new_sub, top = Obj("old_sub_object"), Obj("new_sub_object"), Obj("instance")
         for o in (old_sub, new_sub, top):
-            o.attrs["param"] = Obj("param_of_" + o.name, owner_obj=o)
+            o.attrs["param"] = Obj("param_of_" + o.name, owner_obj=o, _state_watchers=[])
         the_cls = Obj("Cls")
         cA = Obj("constant_dep_a", inst=None, cls=the_cls, what="value", name="a")
         cB = Obj("constant_dep_b", inst=None, cls=the_cls, what="value", name="b")
@@ -211,12 +211,12 @@ def installation(ctx):
         dyn_two_other = Obj("dynamic_dep_other.w", spec="other.w")
         table = [("meth_sub", False, True, [cA, cB, cC], [dyn_sub]), ("meth_other", False, False, [cA], [dyn_other]), ("meth_plain", False, True, [cB], []),
                  ("meth_two", False, False, [], [dyn_two_sub, dyn_two_other])]
-        w_old_sub = Obj("watcher_on_old_sub", inst=old_sub, cls=None)
+        w_old_sub = Obj("watcher_on_old_sub", inst=old_sub, cls=None, what="value", parameter_names=("x",))
         other_object = Obj("other_object")
-        other_object.attrs["param"] = Obj("param_of_other", owner_obj=other_object)
-        w_old_other = Obj("watcher_on_other", inst=other_object, cls=None)
-        w2_sub = Obj("watcher_of_meth_two_on_old_sub", inst=old_sub, cls=None, covers=[dyn_two_sub])
-        w2_other = Obj("watcher_of_meth_two_on_other", inst=other_object, cls=None, covers=[dyn_two_other])
+        other_object.attrs["param"] = Obj("param_of_other", owner_obj=other_object, _state_watchers=[])
+        w_old_other = Obj("watcher_on_other", inst=other_object, cls=None, what="value", parameter_names=("y",))
+        w2_sub = Obj("watcher_of_meth_two_on_old_sub", inst=old_sub, cls=None, covers=[dyn_two_sub], what="value", parameter_names=("y",))
+        w2_other = Obj("watcher_of_meth_two_on_other", inst=other_object, cls=None, covers=[dyn_two_other], what="value", parameter_names=("w",))
         import collections
         dyn_watchers = collections.defaultdict(list)
         if mode != "init":
@@ -247,6 +247,9 @@ def installation(ctx):
                 return out
             if fn == "self_._watch_group":
                 w = Obj("installed_watcher_%d" % len(log), group=list(args[3]) if len(args) > 3 and isinstance(args[3], list) else None, method=args[1] if len(args) > 1 else None)
+                if len(args) > 3 and isinstance(args[3], list) and args[3]:
+                    d0 = args[3][0][1]
+                    w.attrs.update(inst=d0.attrs["inst"], cls=d0.attrs["cls"], what=d0.attrs["what"], parameter_names=tuple(g[1].attrs["name"] for g in args[3]))
                 log.append(("watch", w))
                 return w
             if fn.endswith(".param.unwatch") and len(args) == 1:
@@ -872,3 +875,126 @@ def report_constant_group(ctx, rule):
         ctx.fail(rule, f, f.node, "depends model (constant group): %s (%d disagreeing case(s))" % (problems[0], len(problems)), key=f.qualname + "::constant-group")
     else:
         ctx.ok(rule, f, f.node, "depends model: a constant group that names a parameter twice yields one watcher listing each name once (%d groups)" % n)
+
+
+# --------------------------------------------------------------------------------------------------
+# (h) a path root replaced more than once inside ONE batch
+# --------------------------------------------------------------------------------------------------
+def batch_rebind(ctx):
+    """Every assignment of a path root rebuilds the dynamic watchers of the methods that pass through it (new Watcher
+    objects), and the batch queue tells watchers apart by identity.  Interpreted in sequence, with a batch open on the
+    instance and the watcher of `meth` on the root attribute ALREADY queued by an earlier replacement of the same batch:
+
+      Parameters._update_deps('sub')  ->  Parameters._call_watcher(<the rebuilt watcher>, <the second event>)
+      ->  Parameters._batch_call_watchers()
+
+    Specification (C06: once per batch; C07: exactly once): the flush executes exactly ONE watcher on behalf of `meth`;
+    a watcher of another method queued in the same batch still runs once."""
+    upd = ctx.repo.func(P + "Parameters._update_deps")
+    cw = ctx.repo.func(P + "Parameters._call_watcher")
+    fl = ctx.repo.func(P + "Parameters._batch_call_watchers")
+    # the installation of one watcher is taken as given (R07.a interprets it): it must not touch the batch queue itself
+    for q in ("Parameters._watch_group", "Parameters._watch", "Parameters._resolve_dynamic_deps", "Parameters._register_watcher"):
+        g = ctx.repo.funcs.get(P + q)
+        if g is None:
+            continue
+        if any(isinstance(n, ast.Attribute) and n.attr in ("_state_watchers", "parameters_state") for n in ast.walk(g.node)):
+            raise AnalysisError("depends model (batch rebind): %s touches the batch queue; the model takes the installation of one watcher as given and cannot decide" % q)
+    problems, n = [], 0
+    for other_queued in (False, True):
+        old_sub, new_sub, top = Obj("old_sub_object"), Obj("new_sub_object"), Obj("instance")
+        the_cls, sub_cls = Obj("Cls"), Obj("SubCls")
+        dyn = Obj("dynamic_dep_sub.x", spec="sub.x")
+        table = [("meth", False, False, [], [dyn])]
+
+        def mkw(name, inst, cls, names, method):
+            return Obj(name, inst=inst, cls=cls, what="value", parameter_names=tuple(names), onlychanged=True, queued=False, precedence=-1, mode="args",
+                       fn=Obj("caller_of_" + name), method=method)
+        w_top_old = mkw("watcher_of_meth_on_the_instance_before", top, the_cls, ["sub"], "meth")
+        w_sub_old = mkw("watcher_of_meth_on_the_detached_sub_object", old_sub, sub_cls, ["x"], "meth")
+        w_user = mkw("watcher_of_somebody_else", top, the_cls, ["sub"], "other")
+        import collections
+        dyn_watchers = collections.defaultdict(list)
+        dyn_watchers["meth"] += [w_top_old, w_sub_old]
+        ev1 = Obj("first_replacement_event", name="sub", what="value", id="ev1")
+        ev2 = Obj("second_replacement_event", name="sub", what="value", id="ev2")
+        top.attrs["_param__private"] = Obj("private", dynamic_watchers=dyn_watchers)
+        top.attrs["meth"] = Obj("bound_meth", __name__="meth")
+        queue = [w_top_old] + ([w_user] if other_queued else [])
+        ns = Obj("ns", self=top, self_or_cls=top, _BATCH_WATCH=True, _TRIGGER=False, _events=[ev1], _state_watchers=queue, owner_obj=top)
+        ns.attrs["cls"] = the_cls
+        top.attrs["param"] = ns
+        the_cls.attrs["param"] = Obj("class_namespace", _depends={"watch": table})
+        top.attrs["__type__"] = the_cls
+        for o in (old_sub, new_sub):
+            o.attrs["param"] = Obj("param_of_" + o.name, owner_obj=o, self=o, self_or_cls=o, _BATCH_WATCH=False, _TRIGGER=False, _events=[], _state_watchers=[])
+        installed, runs = [], []
+
+        def hook(fn, args, kwargs):
+            if fn == "type" and args and args[0] is top:
+                return the_cls
+            if fn == "_resolve_mcs_deps" and len(args) == 3:
+                out = []
+                for d in args[2]:
+                    out.append(Obj("resolved_sub", inst=top, cls=the_cls, what="value", name="sub", src=d))
+                    out.append(Obj("resolved_sub.x", inst=new_sub, cls=sub_cls, what="value", name="x", src=d))
+                return out
+            if fn == "self_._watch_group":
+                if len(args) > 5 or set(kwargs) - {"attribute"}:
+                    raise AnalysisError("depends model (batch rebind): _watch_group is called with arguments the model does not know (%d positional, %s)" % (len(args), sorted(kwargs)))
+                group = args[3]
+                dep = group[0][1]
+                w = mkw("rebuilt_watcher_%d" % len(installed), dep.attrs["inst"], dep.attrs["cls"], [g[1].attrs["name"] for g in group], args[1])
+                installed.append(w)
+                return w
+            if fn.endswith(".param.unwatch") and len(args) == 1:
+                return None
+            if fn.endswith("._changed"):
+                return True
+            if fn.endswith("._update_event_type"):
+                return args[1]
+            if fn == "_batch_call_watchers":
+                return Obj("scope")
+            if fn.endswith("._execute_watcher"):
+                runs.append(args[0])
+                return None
+            return NotImplemented
+        it = Interp(ctx.hier, dyn=P + "Parameters", inline=lambda m: m not in ("_watch_group", "_changed", "_update_event_type", "_execute_watcher"), call_hook=hook)
+        try:
+            outs = it.run_all(upd, {"self_": ns, "attribute": "sub", "init": False})
+            if len(outs) != 1 or outs[0].imprecise or outs[0].kind != "return":
+                raise AnalysisError("depends model (batch rebind): Parameters._update_deps is not interpretable precisely (%s)" % (outs[0].notes[:2] if outs else "no outcome"))
+            new_top = [w for w in installed if w.attrs["inst"] is top]
+            if len(new_top) != 1:
+                raise AnalysisError("depends model (batch rebind): %d watcher(s) rebuilt on the instance for one path (R07.b decides the rebinding itself)" % len(new_top))
+            # the assignment's own dispatch: the registered watchers of `sub`, i.e. the rebuilt one (and the other party's)
+            for w in ([w_user] if other_queued else []) + new_top:
+                outs = it.run_all(cw, {"self_": ns, "watcher": w, "event": ev2})
+                if len(outs) != 1 or outs[0].imprecise or outs[0].kind != "return":
+                    raise AnalysisError("depends model (batch rebind): Parameters._call_watcher is not interpretable precisely (%s)" % (outs[0].notes[:2] if outs else "no outcome"))
+            ns.attrs["_BATCH_WATCH"] = False
+            outs = it.run_all(fl, {"self_": ns})
+            if len(outs) != 1 or outs[0].imprecise or outs[0].kind != "return":
+                raise AnalysisError("depends model (batch rebind): Parameters._batch_call_watchers is not interpretable precisely (%s)" % (outs[0].notes[:2] if outs else "no outcome"))
+        except Unsupported as e:
+            raise AnalysisError("depends model (batch rebind): absint cannot interpret the rebinding / dispatch / flush sequence: %s" % e)
+        n += 1
+        mine = [w for w in runs if w.attrs.get("method") == "meth"]
+        if len(mine) != 1:
+            problems.append("a batch that replaces the sub-object of a path dependency twice executes %d watcher(s) on behalf of the dependent method at the flush (%s), specification exactly 1: every "
+                            "assignment of the path root rebuilds the method's watchers, the queue tells watchers apart by identity, so the replaced watcher and its successor are both queued" % (
+                                len(mine), ", ".join(w.name for w in mine) or "none"))
+        if other_queued and len([w for w in runs if w is w_user]) != 1:
+            problems.append("a watcher of another party queued in the same batch runs %d time(s) at the flush after a path root was replaced twice, specification 1" % len([w for w in runs if w is w_user]))
+    return n, problems
+
+
+def report_batch_rebind(ctx, rule):
+    n, problems = batch_rebind(ctx)
+    g = ctx.repo.func(P + "Parameters._update_deps")
+    ctx.abstract_cases += n
+    if problems:
+        ctx.fail(rule, g, g.node, "depends model (batch rebind): %s (%d problem(s))" % (problems[0], len(problems)), key=g.qualname + "::batch-rebind",
+                 input="with batch_call_watchers(o): o.sub = S(x=2); o.sub = S(x=3)   # @depends('sub.x', watch=True) method")
+    else:
+        ctx.ok(rule, g, g.node, "depends model: a path root replaced twice inside one batch -- the rebuilt watcher takes the queue slot of the watcher it replaces; the method runs once at the flush (%d cases)" % n)
